@@ -767,18 +767,18 @@ func (m *c10Ref) run(prog c10Prog, def string, in c10Route, e c10Env) c10Result 
 type c10Flat struct {
 	NH     string
 	Origin int
-	Path   string
+	Path   []c10Seg // adjacent sequences merged, set members sorted
 	MED    int64
 	LP     int64
-	Comms  string
-	Ext    string
-	Ext6   string
-	Large  string
+	Comms  []uint32   // sorted, duplicates removed
+	Ext    []string   // raw hex, sorted, duplicates removed
+	Ext6   []string   // raw hex, sorted, duplicates removed
+	Large  []c10Large // sorted, duplicates removed
 }
 
 // c10CanonPath: adjacent sequence segments of the same kind are one sequence (an implementation may
-// split a sequence at 255 members).
-func c10CanonPath(p []c10Seg) string {
+// split a sequence at 255 members); the order inside a set carries no meaning.
+func c10CanonPath(p []c10Seg) []c10Seg {
 	var out []c10Seg
 	for _, s := range p {
 		if len(s.AS) == 0 {
@@ -788,17 +788,22 @@ func c10CanonPath(p []c10Seg) string {
 			out[n-1].AS = append(append([]uint32{}, out[n-1].AS...), s.AS...)
 			continue
 		}
-		out = append(out, c10Seg{s.T, s.AS})
-	}
-	// run-length form keeps 255-fold prepends short
-	var b strings.Builder
-	for _, s := range out {
-		fmt.Fprintf(&b, "<%d:", s.T)
 		as := s.AS
 		if s.T == c10SegSet || s.T == c10SegConfedSet {
 			as = append([]uint32{}, as...)
 			sort.Slice(as, func(i, j int) bool { return as[i] < as[j] })
 		}
+		out = append(out, c10Seg{s.T, as})
+	}
+	return out
+}
+
+// c10PathShow: run-length rendering for messages (keeps 255-fold prepends short).
+func c10PathShow(p []c10Seg) string {
+	var b strings.Builder
+	for _, s := range p {
+		fmt.Fprintf(&b, "<%d:", s.T)
+		as := s.AS
 		for i := 0; i < len(as); {
 			j := i
 			for j < len(as) && as[j] == as[i] {
@@ -816,37 +821,88 @@ func c10CanonPath(p []c10Seg) string {
 	return b.String()
 }
 
-func c10SetOfStrings(l []string) string {
-	l = append([]string{}, l...)
-	sort.Strings(l)
-	var o []string
-	for i, s := range l {
-		if i == 0 || s != l[i-1] {
-			o = append(o, s)
+func (f c10Flat) String() string {
+	var cs, ls []string
+	for _, c := range f.Comms {
+		cs = append(cs, c10CommStr(c))
+	}
+	for _, l := range f.Large {
+		ls = append(ls, l.String())
+	}
+	return fmt.Sprintf("{nexthop=%s origin=%d path=%s med=%d localpref=%d comm=%v ext=%v ext6=%v large=%v}", f.NH, f.Origin, c10PathShow(f.Path), f.MED, f.LP, cs, f.Ext, f.Ext6, ls)
+}
+
+func c10SortedSet[T any](l []T, less func(a, b T) bool) []T {
+	if len(l) == 0 {
+		return nil
+	}
+	o := append([]T{}, l...)
+	sort.Slice(o, func(i, j int) bool { return less(o[i], o[j]) })
+	w := 1
+	for i := 1; i < len(o); i++ {
+		if less(o[w-1], o[i]) {
+			o[w] = o[i]
+			w++
 		}
 	}
-	return strings.Join(o, " ")
+	return o[:w]
+}
+
+func c10LargeLess(a, b c10Large) bool {
+	for i := 0; i < 3; i++ {
+		if a[i] != b[i] {
+			return a[i] < b[i]
+		}
+	}
+	return false
 }
 
 // c10Flatten: communities of all three kinds are compared as sets (order and multiplicity carry no
 // meaning in BGP), everything else literally.
 func c10Flatten(r c10Route) c10Flat {
 	f := c10Flat{NH: r.NH, Origin: r.Origin, Path: c10CanonPath(r.Path), MED: r.MED, LP: r.LP}
-	if r.NH != "" {
-		f.NH = netip.MustParseAddr(r.NH).Unmap().String()
-	}
-	var cs, es, ls []string
-	for _, c := range r.Comms {
-		cs = append(cs, c10CommStr(c))
-	}
+	f.Comms = c10SortedSet(r.Comms, func(a, b uint32) bool { return a < b })
+	es := make([]string, 0, len(r.Ext))
 	for _, e := range r.Ext {
 		es = append(es, e.Raw)
 	}
-	for _, l := range r.Large {
-		ls = append(ls, l.String())
-	}
-	f.Comms, f.Ext, f.Ext6, f.Large = c10SetOfStrings(cs), c10SetOfStrings(es), c10SetOfStrings(r.Ext6), c10SetOfStrings(ls)
+	f.Ext = c10SortedSet(es, func(a, b string) bool { return a < b })
+	f.Ext6 = c10SortedSet(r.Ext6, func(a, b string) bool { return a < b })
+	f.Large = c10SortedSet(r.Large, c10LargeLess)
 	return f
+}
+
+func c10SameNH(a, b string) bool {
+	if a == b {
+		return true
+	}
+	x, e1 := netip.ParseAddr(a)
+	y, e2 := netip.ParseAddr(b)
+	return e1 == nil && e2 == nil && x.Unmap() == y.Unmap()
+}
+
+func c10SamePath(a, b []c10Seg) bool {
+	if len(a) != len(b) {
+		return false
+	}
+	for i := range a {
+		if a[i].T != b[i].T || !c10SameSlice(a[i].AS, b[i].AS) {
+			return false
+		}
+	}
+	return true
+}
+
+func c10SameSlice[T comparable](a, b []T) bool {
+	if len(a) != len(b) {
+		return false
+	}
+	for i := range a {
+		if a[i] != b[i] {
+			return false
+		}
+	}
+	return true
 }
 
 // c10FlatDiff lists the fields in which two projections differ (skipping those in unspec).
@@ -857,15 +913,15 @@ func c10FlatDiff(a, b c10Flat, unspec map[string]bool) []string {
 			d = append(d, n)
 		}
 	}
-	add("nexthop", a.NH != b.NH)
+	add("nexthop", !c10SameNH(a.NH, b.NH))
 	add("origin", a.Origin != b.Origin)
-	add("path", a.Path != b.Path)
+	add("path", !c10SamePath(a.Path, b.Path))
 	add("med", a.MED != b.MED)
 	add("localpref", a.LP != b.LP)
-	add("comm", a.Comms != b.Comms)
-	add("ext", a.Ext != b.Ext)
-	add("ext6", a.Ext6 != b.Ext6)
-	add("large", a.Large != b.Large)
+	add("comm", !c10SameSlice(a.Comms, b.Comms))
+	add("ext", !c10SameSlice(a.Ext, b.Ext))
+	add("ext6", !c10SameSlice(a.Ext6, b.Ext6))
+	add("large", !c10SameSlice(a.Large, b.Large))
 	return d
 }
 
